@@ -11,28 +11,45 @@
    and exports it with the base filler of its nonterminal and a root context.  The harness
    instantiates each family at sizes k, 2k, 4k, 8k and measures deterministic work.
 
+   Flat families: `Lists` names the list constructs of the grammar; TLC pairs each with every item
+   spelling (and, for MaxMix = 2, with every ordered pair of different spellings, alternated);
+   the harness repeats the items k times inside the construct.  Work that is quadratic in the
+   LENGTH of a list (re-scanning the rest of a parameter list for every abstract declarator, say)
+   shows here and nowhere in the nesting families.
+
    CycleClosed and Simple are the obvious sanity invariants of the enumeration; the property
    the families serve is stated on the token stream: ParserTrace.ReconsumptionBound (no token
    index consumed more than R times) - which every blow-up by speculative parsing breaks.   *)
 EXTENDS Naturals, Sequences, TLC, FiniteSets, Json
 
 CONSTANTS Pumps,      \* sequence of [n, src, dst, pre, post]
-          MaxCycle
-VARIABLES cyc        \* sequence of pump indices
-vars == <<cyc>>
+          MaxCycle,
+          Lists,      \* sequence of [n, items]: the list constructs of the grammar (parameters, arguments,
+                      \* initializer items, enumerators, members, declarators, block items, external declarations)
+                      \* and the number of item spellings each is to be filled with
+          MaxMix      \* a flat list repeats one item spelling (1) or alternates two different ones (2)
+VARIABLES cyc,       \* sequence of pump indices
+          lst        \* <<>> or <<list index, item index (, second item index)>>: a FLAT family - length, not depth
+vars == <<cyc, lst>>
 
 P(i) == Pumps[i]
-Init == cyc = <<>>
-Extend == /\ Len(cyc) < MaxCycle
+Init == cyc = <<>> /\ lst = <<>>
+Extend == /\ Len(cyc) < MaxCycle /\ lst = <<>> /\ UNCHANGED lst
           /\ \E i \in 1..Len(Pumps) :
                /\ (IF cyc = <<>> THEN TRUE ELSE P(cyc[Len(cyc)]).dst = P(i).src)
                /\ (\A j \in 1..Len(cyc) : cyc[j] # i)                          \* simple: no pump twice
                /\ cyc' = Append(cyc, i)
-Next == Extend
+ChooseList == /\ cyc = <<>> /\ lst = <<>> /\ UNCHANGED cyc
+              /\ \E l \in 1..Len(Lists) : \E i \in 1..Lists[l].items : lst' = <<l, i>>
+Mix == /\ Len(lst) = 2 /\ MaxMix >= 2 /\ UNCHANGED cyc
+       /\ \E j \in 1..Lists[lst[1]].items : j # lst[2] /\ lst' = Append(lst, j)
+Next == Extend \/ ChooseList \/ Mix
 Spec == Init /\ [][Next]_vars
 
 Closed == IF cyc = <<>> THEN FALSE ELSE P(cyc[Len(cyc)]).dst = P(cyc[1]).src
 Simple == \A a, b \in 1..Len(cyc) : a # b => cyc[a] # cyc[b]
 Chained == \A j \in 1..(Len(cyc)-1) : P(cyc[j]).dst = P(cyc[j+1]).src
+ListSane == lst # <<>> => (cyc = <<>> /\ \A j \in 2..Len(lst) : lst[j] \in 1..Lists[lst[1]].items)
+ExportList == lst # <<>> => PrintT("@@" \o ToJson([list |-> Lists[lst[1]].n, items |-> Tail(lst)]))
 Export == Closed => PrintT("@@" \o ToJson([cyc |-> cyc, names |-> [j \in 1..Len(cyc) |-> P(cyc[j]).n]]))
 =============================================================================
